@@ -32,7 +32,17 @@ Front ends (DESIGN.md section 4):
       front end -> Gen/ReadPrologue.v (Proofs/ReadPrologueLayout.v);
   (n) .slpp helper front end: read_peppi_gecko_codes / read_peppi_metadata / read_peppi_start / read_peppi_end and the arms of
       fn read that call them (src/io/peppi/de.rs), the gecko_codes.raw block of src/io/peppi/ser.rs fn write ->
-      Gen/SlppHelpers.v (Proofs/SlppHelpersLayout.v).
+      Gen/SlppHelpers.v (Proofs/SlppHelpersLayout.v);
+  (o) rollback-marking front end: Frame::rollbacks / rollbacks_ (src/frame/immutable/mod.rs): iteration order per variant,
+      initial values, the checked index expressions (i64 over Z), the loop body as a decision table -> Gen/RollbacksSrc.v
+      (Proofs/RollbacksLayout.v);
+  (p) version-text front end: impl fmt::Display / str::FromStr for Version (src/io/slippi/mod.rs, src/io/peppi/mod.rs) and
+      fn parse_u8 (src/io/mod.rs) -> Gen/VersionTextSrc.v (Proofs/VersionTextLayout.v);
+  (q) MeleeString front end: impl TryFrom<&[u8]> for MeleeString, to_normalized (src/game/shift_jis.rs) and the
+      MeleeString::try_from call sites of fn player (src/io/slippi/de.rs) -> Gen/MeleeStringSrc.v (Proofs/MeleeStringLayout.v);
+  (r) hashing front end: struct HashingReader and its impls, fn format_hash (src/io/mod.rs), the option / hashing lines of
+      fn read (src/io/slippi/de.rs) -> Gen/HashingSrc.v (Proofs/HashingLayout.v);
+  (s) port-occupancy front end: fn port_occupancy (src/game/mod.rs) -> Gen/PortOccupancySrc.v (Proofs/PortOccupancyLayout.v).
 
 Anything it does not recognise is a loud failure (exit 3, message naming file/item/token): the checks then
 treat every property that depends on the tables as "tie broken" and go searching for a failing input.
@@ -4784,6 +4794,750 @@ def gen_slpp_helpers():
     return '\n'.join(L) + '\n'
 
 
+# ------------------------------------------------------------------------------------------------
+# (o) rollback-marking front end: Frame::rollbacks / Frame::rollbacks_ (src/frame/immutable/mod.rs) -> Gen/RollbacksSrc.v
+
+RB_RS = 'src/frame/immutable/mod.rs'
+FRAME_MOD_RS = 'src/frame/mod.rs'
+
+
+def other_impl_fn(rel, header, fn_name):
+    """fn of an `impl <header> { .. }` block whose header is not a plain name (trait impls, generic impls);
+    header is the token-joined text between `impl` and `{`; exactly one such block must exist"""
+    toks = tokenize(read(rel), rel)
+    blocks = [body for kind, name, frm, body in impl_blocks(toks) if kind == 'other' and name == header]
+    if len(blocks) != 1:
+        raise TranslateError('%s: expected exactly one `impl %s`, found %d' % (rel, header, len(blocks)))
+    fns = list(fns_in(blocks[0]))
+    for n, params, ret, b in fns:
+        if n == fn_name:
+            return params, ret, b, [f[0] for f in fns], blocks[0]
+    raise TranslateError('%s: fn %s not found in `impl %s`' % (rel, fn_name, header))
+
+
+def enum_variants_plain(rel, name):
+    """`enum Name { A, B, .. }` (unit variants without explicit codes) -> [A, B, ..]"""
+    toks = tokenize(read(rel), rel)
+    vals = tv(toks)
+    i = find_seq(toks, ['enum', name, '{'])
+    if i < 0:
+        raise TranslateError('%s: enum %s not found' % (rel, name))
+    e = match_close(toks, i + 2)
+    s = sj(toks[i + 3:e])
+    if not re.fullmatch(r'\w+(?: , \w+)*(?: ,)?', s):
+        raise TranslateError('%s: enum %s is not a list of unit variants: %s' % (rel, name, s[:200]))
+    return [x for x in s.split(' ') if x != ',']
+
+
+def ast_has(a, kind):
+    if isinstance(a, tuple):
+        if a and a[0] == kind:
+            return True
+        return any(ast_has(x, kind) for x in a[1:])
+    if isinstance(a, list):
+        return any(ast_has(x, kind) for x in a)
+    return False
+
+
+def split_checked_usize(ast, where):
+    """the expression must contain exactly one `usize::try_from(<arg>).unwrap()`; -> (the expression with that node
+    replaced by the variable `u_`, <arg>).  Casts are not accepted anywhere (they would hide a truncation)."""
+    found = []
+
+    def go(a):
+        if isinstance(a, tuple):
+            if len(a) == 4 and a[0] == 'method' and a[2] == 'unwrap' and a[3] == [] and isinstance(a[1], tuple) and a[1][0] == 'call' \
+                    and a[1][1] == 'usize::try_from' and len(a[1][2]) == 1:
+                found.append(a[1][2][0])
+                return ('var', 'u_')
+            return tuple(go(x) for x in a)
+        if isinstance(a, list):
+            return [go(x) for x in a]
+        return a
+    outer = go(ast)
+    if len(found) != 1:
+        raise TranslateError('%s: expected exactly one `usize::try_from(..).unwrap()` in the expression, found %d' % (where, len(found)))
+    if ast_has(outer, 'cast') or ast_has(found[0], 'cast'):
+        raise TranslateError('%s: an `as` cast in an index computation is not recognised' % where)
+    return outer, found[0]
+
+
+class GZ(G):
+    """Gallina printer for i64 arithmetic: every integer is a Z; literals, names, + - *, i64::from(<i32 name>)"""
+
+    def e(self, a):
+        k = a[0]
+        if k == 'num':
+            return '(%d)%%Z' % a[1]
+        if k == 'var':
+            return G.e(self, a)
+        if k == 'bin' and a[1] in ('+', '-', '*'):
+            return '(Z.%s %s %s)' % ({'+': 'add', '-': 'sub', '*': 'mul'}[a[1]], self.e(a[2]), self.e(a[3]))
+        if k == 'call' and a[1] == 'i64::from' and len(a[2]) == 1 and a[2][0][0] == 'var':
+            return self.e(a[2][0])
+        raise TranslateError('%s: unsupported i64 expression %r' % (self.where, a[:2]))
+
+
+def checked_usize_defs(text, zenv, where, arg_name, of_name, zbinder):
+    """`<outer>(usize::try_from(<arg>).unwrap())` -> Definition arg_name (zbinder : Z) : Z := <arg>.  Definition of_name (u : N) : N := <outer>."""
+    p = P(tokenize(text, where), where)
+    ast = p.expr()
+    if not p.done():
+        raise TranslateError('%s: trailing tokens in expression: %s' % (where, text[:200]))
+    outer, arg = split_checked_usize(ast, where)
+    return ['Definition %s (%s : Z) : Z := %s.' % (arg_name, zbinder, GZ(zenv, where).e(arg)),
+            'Definition %s (u : N) : N := %s.' % (of_name, G({'u_': 'u'}, where).e(outer))]
+
+
+def gen_rollbacks():
+    toks = tokenize(read(RB_RS), RB_RS)
+    decl = dict(parse_struct_decl(toks, 'Frame', RB_RS))
+    if decl.get('id') != 'PrimitiveArray < i32 >':
+        raise TranslateError('%s: Frame.id is not a PrimitiveArray<i32>: %s' % (RB_RS, decl.get('id')))
+    ft, fe = find_const(FRAME_MOD_RS, 'FIRST_INDEX')
+    if ft != 'i32':
+        raise TranslateError('%s: FIRST_INDEX is not an i32: %s' % (FRAME_MOD_RS, ft))
+    imp = imported_from(RB_RS, ['frame'])
+    if 'self' not in imp or 'Rollbacks' not in imp:
+        raise TranslateError('%s: `frame::{self, .., Rollbacks}` is not imported from the crate' % RB_RS)
+    variants = enum_variants_plain(FRAME_MOD_RS, 'Rollbacks')
+    lp, lr, lb = find_fn(RB_RS, 'Frame', 'len')
+    if sj(lb) != 'self . id . len ( )':
+        raise TranslateError('%s Frame::len: not `self.id.len()`' % RB_RS)
+
+    # ---- rollbacks: the iteration order per variant
+    where = '%s Frame::rollbacks' % RB_RS
+    params, ret, body = find_fn(RB_RS, 'Frame', 'rollbacks')
+    if sjp(params) != '& self , keep : Rollbacks' or sj(ret) != '-> Vec < bool >':
+        raise TranslateError('%s: unexpected signature (%s) %s' % (where, sjp(params), sj(ret)))
+    sts = fw_stmts(body, where)
+    if len(sts) != 2 or sj(sts[0]) != 'use Rollbacks :: *' or tv(sts[1][:3]) != ['match', 'keep', '{'] or match_close(sts[1], 2) != len(sts[1]) - 1:
+        raise TranslateError('%s: not `use Rollbacks::*; match keep { .. }`: %s' % (where, sj(body)[:300]))
+    order = []
+    for pat, bd in match_arms(sts[1][3:-1], where):
+        if pat not in variants or pat in [a for a, _ in order]:
+            raise TranslateError('%s: arm pattern is not a (new) variant of Rollbacks: %s' % (where, pat[:100]))
+        m = re.fullmatch(r'self \. rollbacks_ \( self \. id \. values_iter \( \) \. enumerate \( \)( \. rev \( \))? \)', bd)
+        if not m:
+            raise TranslateError('%s: arm %s is not `self.rollbacks_(self.id.values_iter().enumerate()[.rev()])`: %s' % (where, pat, bd[:200]))
+        order.append((pat, 'RbEnumerateRev' if m.group(1) else 'RbEnumerate'))
+    if [a for a, _ in order] != variants:
+        raise TranslateError('%s: the arms %s are not the variants %s in declaration order' % (where, [a for a, _ in order], variants))
+
+    # ---- rollbacks_
+    where = '%s Frame::rollbacks_' % RB_RS
+    params, ret, body = find_fn(RB_RS, 'Frame', 'rollbacks_')
+    if sjp(params) != "& self , ids : impl Iterator < Item = ( usize , & 'a i32 ) >" or sj(ret) != '-> Vec < bool >':
+        raise TranslateError('%s: unexpected signature (%s) %s' % (where, sjp(params), sj(ret)))
+    if tv(toks).count('rollbacks_') != 1 + len(variants):
+        raise TranslateError('%s: rollbacks_ is used outside Frame::rollbacks' % RB_RS)
+    raw = fw_stmts(body, where)
+    m = strict_match([sj(x) for x in raw], [
+        ('`let mut result = vec![<bool>; self.len()]`', r'let mut result = vec ! \[ (true|false) ; self \. len \( \) \]'),
+        ('`let unique_id_count = self.id.values_iter().max().map_or(<literal>, |x| ..)`',
+         r'let unique_id_count = self \. id \. values_iter \( \) \. max \( \) \. map_or \( (\d[\d_]*) , \| (\w+) \| (.*) \)'),
+        ('`let mut seen = vec![<bool>; unique_id_count]`', r'let mut seen = vec ! \[ (true|false) ; unique_id_count \]'),
+        ('`for (idx, id) in ids { .. }`', r'for \( (\w+) , (\w+) \) in ids \{ .* \}'),
+        ('`result`', r'result'),
+    ], where)
+    zenv = lambda v: {v: v, 'frame::FIRST_INDEX': 'FIRST_INDEX'}
+    mbr = re.fullmatch(r'\{ (.*) \}', m[1].group(3))
+    count_expr = mbr.group(1) if mbr else m[1].group(3)       # the closure body with or without braces
+    D = []
+    D.append('(* Frame::rollbacks_: let mut result = vec![%s; self.len()]   (Frame::len is self.id.len()) *)' % m[0].group(1))
+    D.append('Definition rb_result_init : bool := %s.' % m[0].group(1))
+    D.append('(* let unique_id_count = self.id.values_iter().max().map_or(%s, |%s| %s):' % (m[1].group(1), m[1].group(2), count_expr.replace('*)', '* )')))
+    D.append('   the default; the argument of the one usize::try_from(..).unwrap() (an i64: a panic when negative); the expression around it *)')
+    D.append('Definition rb_count_default : N := %d.' % num(m[1].group(1)))
+    D.extend(checked_usize_defs(count_expr, zenv(m[1].group(2)), where + ' (unique_id_count)', 'rb_count_arg', 'rb_count_of', m[1].group(2)))
+    D.append('(* let mut seen = vec![%s; unique_id_count] *)' % m[2].group(1))
+    D.append('Definition rb_seen_init : bool := %s.' % m[2].group(1))
+    idx, idv = m[3].group(1), m[3].group(2)
+    if idx == idv:
+        raise TranslateError('%s: the loop binds the same name twice' % where)
+    w2 = where + ' (loop body)'
+    lb = fw_stmts(fw_for_block(raw[3], w2)[1], w2)
+    if len(lb) != 2:
+        raise TranslateError('%s: expected `let zero_based_id = ..; if .. { .. } else { .. }`, found %d statements: %s'
+                             % (w2, len(lb), ' ; '.join(sj(x) for x in lb)[:300]))
+    mz = re.fullmatch(r'let (\w+) = (.*)', sj(lb[0]))
+    if not mz or mz.group(1) in (idx, idv, 'seen', 'result'):
+        raise TranslateError('%s: statement 1 is not `let zero_based_id = ..`: %s' % (w2, sj(lb[0])[:200]))
+    zb = mz.group(1)
+    D.append('(* for (%s, %s) in ids { let %s = %s; *)' % (idx, idv, zb, mz.group(2).replace('*)', '* )')))
+    D.extend(checked_usize_defs(mz.group(2), zenv(idv), w2, 'rb_zero_based_arg', 'rb_zero_based_of', idv))
+    st = lb[1]
+    if tv(st[:1]) != ['if']:
+        raise TranslateError('%s: statement 2 is not an `if`: %s' % (w2, sj(st)[:200]))
+    sv = StmtView(st, w2)
+    j = sv.first_top(1, len(st), '{')
+    c = match_close(st, j) if j > 0 else -1
+    if j < 0 or tv(st[c + 1:c + 3]) != ['else', '{'] or match_close(st, c + 2) != len(st) - 1:
+        raise TranslateError('%s: not `if <cond> { .. } else { .. }`: %s' % (w2, sj(st)[:300]))
+    cond = sj(st[1:j])
+    if cond == '! seen [ %s ]' % zb:
+        neg = 'true'
+    elif cond == 'seen [ %s ]' % zb:
+        neg = 'false'
+    else:
+        raise TranslateError('%s: the condition is not `[!]seen[%s]`: %s' % (w2, zb, cond[:200]))
+
+    def branch(bt, what):
+        out = []
+        for s in fw_stmts(bt, w2):
+            t = sj(s)
+            ma = re.fullmatch(r'seen \[ %s \] = (true|false)' % zb, t)
+            if ma:
+                out.append('(RbSeenAtId, %s)' % ma.group(1))
+                continue
+            ma = re.fullmatch(r'result \[ %s \] = (true|false)' % idx, t)
+            if ma:
+                out.append('(RbResultAtIdx, %s)' % ma.group(1))
+                continue
+            raise TranslateError('%s: unrecognised statement in the %s branch (expected `seen[%s] = <bool>` or `result[%s] = <bool>`): %s'
+                                 % (w2, what, zb, idx, t[:200]))
+        return out
+    then_b = branch(st[j + 1:c], 'then')
+    else_b = branch(st[c + 3:-1], 'else')
+    D.append('(*   if %s { <then> } else { <else> } }: the assignments of each branch in order, RbSeenAtId = seen[%s], RbResultAtIdx = result[%s] *)'
+             % (cond, zb, idx))
+    D.append('Inductive rb_cell := RbSeenAtId | RbResultAtIdx.')
+    D.append('Definition rb_cond_negated : bool := %s.' % neg)
+    D.append('Definition rb_then : list (rb_cell * bool) := [%s].' % '; '.join(then_b))
+    D.append('Definition rb_else : list (rb_cell * bool) := [%s].' % '; '.join(else_b))
+    D.append('(* the function returns `result` *)')
+
+    L = []
+    L.append('(* GENERATED by tools/rust2coq.py from %s (Frame::rollbacks, Frame::rollbacks_) and %s (enum Rollbacks)' % (RB_RS, FRAME_MOD_RS))
+    L.append('   -- do not edit.  i64 expressions are translated over Z, usize expressions over N. *)')
+    L.append('From Coq Require Import NArith ZArith Bool List String.')
+    L.append('From Peppi Require Import Gen.Funs.')
+    L.append('Import ListNotations.')
+    L.append('Local Open Scope string_scope.')
+    L.append('')
+    L.append('(* Frame::rollbacks: match keep { <Variant> => self.rollbacks_(<iterator>) }:')
+    L.append('   RbEnumerate = self.id.values_iter().enumerate(), RbEnumerateRev = self.id.values_iter().enumerate().rev() *)')
+    L.append('Inductive rb_iter := RbEnumerate | RbEnumerateRev.')
+    L.append('Definition rollbacks_order : list (string * rb_iter) := [%s].' % '; '.join('(%s, %s)' % (coq_str(a), b) for a, b in order))
+    L.append('Definition rollbacks_variants : list string := [%s].' % '; '.join(coq_str(v) for v in variants))
+    L.append('')
+    L.extend(D)
+    return '\n'.join(L) + '\n'
+
+
+# ------------------------------------------------------------------------------------------------
+# (p) version-text front end: `impl fmt::Display for Version`, `impl str::FromStr for Version` (src/io/slippi/mod.rs,
+#     src/io/peppi/mod.rs) and fn parse_u8 (src/io/mod.rs) -> Gen/VersionTextSrc.v
+
+IO_RS = 'src/io/mod.rs'
+INT_TYPES = {'u8': (8, False), 'u16': (16, False), 'u32': (32, False), 'u64': (64, False), 'usize': (64, False),
+             'i8': (8, True), 'i16': (16, True), 'i32': (32, True), 'i64': (64, True), 'isize': (64, True)}
+
+
+def plain_str_lit(tok, where):
+    """a `"..."` token without escapes and with ASCII content only -> its text"""
+    if not (tok[0] == 'str' and tok[1].startswith('"')) or '\\' in tok[1] or any(ord(ch) > 126 or ord(ch) < 32 for ch in tok[1]):
+        raise TranslateError('%s: not a plain ASCII string literal: %s' % (where, tok[1][:100]))
+    return tok[1][1:-1]
+
+
+def fmt_pieces(lit, nargs, where):
+    """a format string with only `{}` placeholders -> list of ('lit', text) / ('arg', k)"""
+    out = []
+    k = 0
+    for i, part in enumerate(re.split(r'(\{\})', lit)):
+        if part == '{}':
+            out.append(('arg', k))
+            k += 1
+        elif part:
+            if '{' in part or '}' in part:
+                raise TranslateError('%s: format string "%s": only plain `{}` placeholders are recognised' % (where, lit))
+            out.append(('lit', part))
+    if k != nargs:
+        raise TranslateError('%s: format string "%s" has %d placeholders for %d arguments' % (where, lit, k, nargs))
+    return out
+
+
+def gen_version_text():
+    D = []
+    # ---- parse_u8
+    where = '%s fn parse_u8' % IO_RS
+    params, ret, body = find_fn(IO_RS, None, 'parse_u8')
+    mr = re.fullmatch(r'-> Result < (\w+) >', sj(ret))
+    if sjp(params) != 's : & str' or not mr:
+        raise TranslateError('%s: unexpected signature (%s) %s' % (where, sjp(params), sj(ret)))
+    if mr.group(1) not in INT_TYPES:
+        raise TranslateError('%s: the return type Result<%s> is not a primitive integer' % (where, mr.group(1)))
+    if not re.fullmatch(r's \. parse \( \) \. map_err \( \| _ \| err ! \( .* \) \)', sj(body)) or tv(body).count('parse') != 1 \
+            or any(x in tv(body) for x in ('as', 'from', 'into', 'try_from', 'try_into', 'unwrap_or', 'ok')):
+        raise TranslateError('%s: the body is not `s.parse().map_err(|_| err!(..))` (the target type is the one of the signature): %s' % (where, sj(body)[:300]))
+    if find_seq(tokenize(read(IO_RS), IO_RS), ['type', 'Result', '<', 'T', '>', '=', 'std', '::', 'result', '::', 'Result', '<', 'T', ',', 'Error', '>', ';']) < 0:
+        raise TranslateError('%s: `type Result<T> = std::result::Result<T, Error>;` not found' % IO_RS)
+    bits, signed = INT_TYPES[mr.group(1)]
+    D.append('(* %s: fn parse_u8(s: &str) -> Result<%s> { s.parse().map_err(..) }: str::parse at the type of the signature *)' % (IO_RS, mr.group(1)))
+    D.append('Definition parse_u8_target_bits : N := %d.' % bits)
+    D.append('Definition parse_u8_target_signed : bool := %s.' % ('true' if signed else 'false'))
+    D.append('')
+    D.append('(* Display: the pieces of the format string in order; VpField k = the placeholder filled with self.k *)')
+    D.append('Inductive vt_piece := VpLit (s : list N) | VpField (k : nat).')
+
+    for tag, rel in (('slippi', 'src/io/slippi/mod.rs'), ('peppi', 'src/io/peppi/mod.rs')):
+        check_version_struct(rel)
+        if 'parse_u8' not in imported_from(rel, ['io']):
+            raise TranslateError('%s: parse_u8 is not imported from crate::io' % rel)
+        toks = tokenize(read(rel), rel)
+        if tv(toks).count('parse_u8') - 1 != 3 or find_seq(toks, ['fn', 'parse_u8']) >= 0:
+            raise TranslateError('%s: parse_u8 is used outside the three components of FromStr (or redefined)' % rel)
+        if find_seq(toks, ['use', 'std', '::', '{', 'fmt', ',', 'str', '}', ';']) < 0:
+            raise TranslateError('%s: `use std::{fmt, str};` not found' % rel)
+        # ---- Display
+        where = '%s impl fmt::Display for Version' % rel
+        params, ret, body, names, blk = other_impl_fn(rel, 'fmt :: Display for Version', 'fmt')
+        if names != ['fmt'] or sjp(params) != '& self , f : & mut fmt :: Formatter' or sj(ret) != '-> fmt :: Result':
+            raise TranslateError('%s: unexpected contents or signature (%s) %s' % (where, sjp(params), sj(ret)))
+        v = tv(body)
+        if v[:5] != ['write', '!', '(', 'f', ','] or match_close(body, 2) != len(body) - 1:
+            raise TranslateError('%s: the body is not `write!(f, "<format>", ..)`: %s' % (where, sj(body)[:200]))
+        args = af_split(body[5:-1], where)
+        lit = plain_str_lit(args[0][0], where) if len(args[0]) == 1 else None
+        if lit is None:
+            raise TranslateError('%s: the format is not a string literal: %s' % (where, sj(args[0])[:100]))
+        fields = []
+        for a in args[1:]:
+            ma = re.fullmatch(r'self \. ([012])', sj(a))
+            if not ma:
+                raise TranslateError('%s: argument is not self.0 / self.1 / self.2: %s' % (where, sj(a)[:100]))
+            fields.append(int(ma.group(1)))
+        pieces = []
+        for kind, x in fmt_pieces(lit, len(fields), where):
+            pieces.append('VpLit [%s]' % '; '.join(str(ord(ch)) for ch in x) if kind == 'lit' else 'VpField %d' % fields[x])
+        D.append('')
+        D.append('(* %s: write!(f, "%s", %s) *)' % (rel, lit, ', '.join('self.%d' % k for k in fields)))
+        D.append('Definition %s_version_display : list vt_piece := [%s].' % (tag, '; '.join(pieces)))
+        # ---- FromStr
+        where = '%s impl str::FromStr for Version' % rel
+        params, ret, body, names, blk = other_impl_fn(rel, 'str :: FromStr for Version', 'from_str')
+        if names != ['from_str'] or sjp(params) != 's : & str' or sj(ret) != '-> Result < Self >' or find_seq(blk, ['type', 'Err', '=', 'Error', ';']) < 0:
+            raise TranslateError('%s: unexpected contents or signature (%s) %s' % (where, sjp(params), sj(ret)))
+        sts = fw_stmts(body, where)
+        m0 = re.fullmatch(r"let mut i = s \. split \( '(.)' \)", sj(sts[0])) if len(sts) == 2 else None
+        if not m0 or ord(m0.group(1)) > 126:
+            raise TranslateError("%s: not `let mut i = s.split('<char>'); match (..) { .. }`: %s" % (where, sj(body)[:300]))
+        st = sts[1]
+        j = StmtView(st, where).first_top(1, len(st), '{')
+        if tv(st[:1]) != ['match'] or j < 0 or match_close(st, j) != len(st) - 1:
+            raise TranslateError('%s: statement 2 is not a `match`: %s' % (where, sj(st)[:200]))
+        ms = re.fullmatch(r'\( (i \. next \( \)(?: , i \. next \( \))*) \)', sj(st[1:j]))
+        if not ms:
+            raise TranslateError('%s: the scrutinee is not a tuple of `i.next()` calls: %s' % (where, sj(st[1:j])[:200]))
+        ncalls = ms.group(1).count('next')
+        arms = match_arms(st[j + 1:-1], where)
+        if len(arms) != 2 or arms[1][0] != '_' or not re.fullmatch(r'Err \( err ! \( .* \) \)', arms[1][1]):
+            raise TranslateError('%s: expected one accepting arm and `_ => Err(err!(..))`: %s' % (where, ' | '.join(a for a, _ in arms)[:300]))
+        mp = re.fullmatch(r'\( (.*) \)', arms[0][0])
+        comps = mp.group(1).split(' , ') if mp else []
+        pat, binders = [], []
+        for cpt in comps:
+            mc = re.fullmatch(r'Some \( ([a-z_]\w*) \)', cpt)
+            if mc and mc.group(1) not in binders:
+                binders.append(mc.group(1))
+                pat.append('true')
+            elif cpt == 'None':
+                pat.append('false')
+            else:
+                raise TranslateError('%s: pattern component is neither Some(<new name>) nor None: %s' % (where, cpt[:100]))
+        if len(pat) != ncalls:
+            raise TranslateError('%s: a pattern of %d components for %d calls of next()' % (where, len(pat), ncalls))
+        mb = re.fullmatch(r'Ok \( Version \( (.*) \) \)', arms[0][1])
+        ctor = []
+        for a in (mb.group(1).split(' , ') if mb else []):
+            ma = re.fullmatch(r'(\w+) \( (\w+) \) \?', a)
+            if not ma or ma.group(1) != 'parse_u8' or ma.group(2) not in binders:
+                raise TranslateError('%s: constructor argument is not `parse_u8(<bound name>)?`: %s' % (where, a[:100]))
+            ctor.append('(%s, %d%%nat)' % (coq_str(ma.group(1)), binders.index(ma.group(2))))
+        if len(ctor) != 3:
+            raise TranslateError('%s: the accepting arm is not `Ok(Version(parse_u8(a)?, parse_u8(b)?, parse_u8(c)?))`: %s' % (where, arms[0][1][:300]))
+        D.append("(* %s: let mut i = s.split('%s'); match (%d x i.next()) { (%s) => Ok(Version(..)), _ => Err(..) }:" % (rel, m0.group(1), ncalls, ', '.join(comps)))
+        D.append('   the separator, the number of next() calls, the accepting pattern (true = Some(<binder>), false = None), and per constructor')
+        D.append('   argument the parser applied (with `?`) and the index of the binder it is applied to *)')
+        D.append('Definition %s_version_split_char : N := %d.' % (tag, ord(m0.group(1))))
+        D.append('Definition %s_version_next_calls : nat := %d.' % (tag, ncalls))
+        D.append('Definition %s_version_accept : list bool := [%s].' % (tag, '; '.join(pat)))
+        D.append('Definition %s_version_ctor : list (string * nat) := [%s].' % (tag, '; '.join(ctor)))
+
+    L = []
+    L.append('(* GENERATED by tools/rust2coq.py from src/io/slippi/mod.rs, src/io/peppi/mod.rs (impl fmt::Display for Version,')
+    L.append('   impl str::FromStr for Version) and %s (fn parse_u8) -- do not edit.  Characters are their codes. *)' % IO_RS)
+    L.append('From Coq Require Import NArith List String.')
+    L.append('Import ListNotations.')
+    L.append('Local Open Scope string_scope.')
+    L.append('Local Open Scope N_scope.')
+    L.append('')
+    L.extend(D)
+    return '\n'.join(L) + '\n'
+
+
+# ------------------------------------------------------------------------------------------------
+# (q) MeleeString front end: `impl TryFrom<&[u8]> for MeleeString`, MeleeString::to_normalized (src/game/shift_jis.rs) and the
+#     call sites of MeleeString::try_from in fn player (src/io/slippi/de.rs) -> Gen/MeleeStringSrc.v
+
+SJ_RS = 'src/game/shift_jis.rs'
+BYTE_RE = r'(0x[0-9a-fA-F]{1,2}|\d{1,3})'
+
+
+def gen_melee_string():
+    toks = tokenize(read(SJ_RS), SJ_RS)
+    D = []
+    if find_seq(toks, ['use', 'encoding_rs', '::', 'SHIFT_JIS', ';']) < 0:
+        raise TranslateError('%s: `use encoding_rs::SHIFT_JIS;` not found' % SJ_RS)
+    if parse_struct_decl(toks, 'MeleeString', SJ_RS) != [('0', 'String')]:
+        raise TranslateError('%s: struct MeleeString is not (pub String)' % SJ_RS)
+    # ---- try_from
+    where = '%s impl TryFrom<&[u8]> for MeleeString' % SJ_RS
+    params, ret, body, names, blk = other_impl_fn(SJ_RS, 'TryFrom < & [ u8 ] > for MeleeString', 'try_from')
+    if names != ['try_from'] or sjp(params) != 's : & [ u8 ]' or sj(ret) != '-> Result < MeleeString >' or find_seq(blk, ['type', 'Error', '=', 'Error', ';']) < 0:
+        raise TranslateError('%s: unexpected contents or signature (%s) %s' % (where, sjp(params), sj(ret)))
+    sts = fw_stmts(body, where)
+    m0 = re.fullmatch(r'let first_null = s \. iter \( \) \. position \( \| & x \| x == %s \) \. unwrap_or \( (s \. len \( \)|\d+) \)' % BYTE_RE, sj(sts[0])) \
+        if len(sts) == 2 else None
+    if not m0:
+        raise TranslateError('%s: statement 1 is not `let first_null = s.iter().position(|&x| x == <byte>).unwrap_or(s.len())` (of two statements): %s'
+                             % (where, sj(body)[:300]))
+    st = sts[1]
+    j = StmtView(st, where).first_top(1, len(st), '{')
+    if tv(st[:1]) != ['match'] or j < 0 or match_close(st, j) != len(st) - 1:
+        raise TranslateError('%s: statement 2 is not a `match`: %s' % (where, sj(st)[:200]))
+    ms = re.fullmatch(r'SHIFT_JIS \. (\w+) \( & s \[ (?:(\d+) )?\.\. first_null \] \)', sj(st[1:j]))
+    if not ms:
+        raise TranslateError('%s: the scrutinee is not `SHIFT_JIS.<method>(&s[<from>..first_null])`: %s' % (where, sj(st[1:j])[:200]))
+    arms = []
+    for pat, bd in match_arms(st[j + 1:-1], where):
+        mp = re.fullmatch(r'Some \( (\w+) \)', pat)
+        if mp and bd == 'Ok ( MeleeString ( %s . to_string ( ) ) )' % mp.group(1):
+            arms.append(('Some', 'MaOkDecoded'))
+        elif pat in ('_', 'None') and re.fullmatch(r'Err \( err ! \( .* \) \)', bd):
+            arms.append((pat, 'MaErr'))
+        else:
+            raise TranslateError('%s: unrecognised arm (expected `Some(x) => Ok(MeleeString(x.to_string()))` or `_ => Err(err!(..))`): %s => %s'
+                                 % (where, pat[:100], bd[:200]))
+    if [a for a, _ in arms] not in (['Some', '_'], ['Some', 'None'], ['None', 'Some']):
+        raise TranslateError('%s: the arms are not one `Some(..)` arm and one catch-all / `None` arm: %s' % (where, [a for a, _ in arms]))
+    D.append('(* %s try_from(s): let first_null = s.iter().position(|&x| x == %s).unwrap_or(%s);' % (SJ_RS, m0.group(1), m0.group(2).replace(' ', '')))
+    D.append('   match SHIFT_JIS.%s(&s[%s..first_null]) { .. } *)' % (ms.group(1), ms.group(2) or ''))
+    D.append('Inductive ms_default := MdSliceLen | MdConst (n : nat).      (* unwrap_or(s.len()) / unwrap_or(<literal>) *)')
+    D.append('Inductive ms_arm := MaOkDecoded | MaErr.                     (* Ok(MeleeString(<decoded>.to_string())) / Err(err!(..)) *)')
+    D.append('Definition melee_cut_byte : N := %d.' % num(m0.group(1)))
+    D.append('Definition melee_cut_default : ms_default := %s.' % ('MdSliceLen' if m0.group(2).startswith('s') else 'MdConst %d' % int(m0.group(2))))
+    D.append('Definition melee_slice_from : nat := %d.' % int(ms.group(2) or 0))
+    D.append('Definition melee_decoder_method : string := %s.' % coq_str(ms.group(1)))
+    D.append('Definition melee_arms : list (string * ms_arm) := [%s].' % '; '.join('(%s, %s)' % (coq_str(a), b) for a, b in arms))
+    # ---- to_normalized
+    where = '%s MeleeString::to_normalized' % SJ_RS
+    params, ret, body = find_fn(SJ_RS, 'MeleeString', 'to_normalized')
+    mn = re.fullmatch(r'self \. 0(?: \. clone \( \))? \. chars \( \) \. map \( (\w+) \) \. collect(?: :: < String >)? \( \)', sj(body))
+    if sjp(params) != '& self' or sj(ret) != '-> String' or not mn:
+        raise TranslateError('%s: not `fn to_normalized(&self) -> String { self.0.clone().chars().map(<fn>).collect::<String>() }`: %s' % (where, sj(body)[:300]))
+    fp, fr, fb = find_fn(SJ_RS, None, mn.group(1))
+    if sjp(fp) != 'c : char' or sj(fr) != '-> char':
+        raise TranslateError('%s: the mapped function %s is not `fn(c: char) -> char`' % (where, mn.group(1)))
+    D.append('(* to_normalized: self.0.clone().chars().map(%s).collect::<String>() *)' % mn.group(1))
+    D.append('Definition melee_normalize_map : string := %s.' % coq_str(mn.group(1)))
+
+    # ---- the call sites in fn player
+    where = '%s fn player' % DE_RS
+    de_toks = tokenize(read(DE_RS), DE_RS)
+    params, ret, body = find_fn(DE_RS, None, 'player')
+    pnames = [n for n, _ in parse_params(params, where)]
+    sts = [sj(x) for x in fw_stmts(body, where)]
+    calls = []
+    order = []
+    for s in sts:
+        ml = re.match(r'let (\w+) = ', s)
+        if ml and ml.group(1) in ('ucf', 'name_tag', 'netplay'):
+            order.append(ml.group(1))
+        if 'MeleeString' not in s.split(' '):
+            continue
+        m1 = re.fullmatch(r'let (\w+) = (\w+) \. map \( \| (\w+) \| MeleeString :: try_from \( (\w+) \. as_slice \( \) \) \) \. transpose \( \) \?', s)
+        if m1 and m1.group(3) == m1.group(4) and m1.group(2) in pnames:
+            calls.append((m1.group(1), m1.group(2), 'McMapTranspose'))
+            continue
+        m2 = re.fullmatch(r'let (\w+) = (\w+) \. zip \( (\w+) \) \. map \( \| \( (\w+) , (\w+) \) \| \{ let suid = (.*) ; Result :: Ok \( Netplay \{ '
+                          r'name : MeleeString :: try_from \( (\w+) \. as_slice \( \) \) \? , code : MeleeString :: try_from \( (\w+) \. as_slice \( \) \) \? , '
+                          r'suid \} \) \} \) \. transpose \( \) \?', s)
+        if m2 and 'MeleeString' not in m2.group(6).split(' ') and m2.group(2) in pnames and m2.group(3) in pnames and m2.group(4) != m2.group(5) \
+                and {m2.group(7), m2.group(8)} <= {m2.group(4), m2.group(5)}:
+            src = {m2.group(4): m2.group(2), m2.group(5): m2.group(3)}
+            calls.append((m2.group(1) + '.name', src[m2.group(7)], 'McQuestionInZipMapTranspose'))
+            calls.append((m2.group(1) + '.code', src[m2.group(8)], 'McQuestionInZipMapTranspose'))
+            continue
+        raise TranslateError('%s: a statement builds a MeleeString in an unrecognised way (expected `let f = <param>.map(|x| MeleeString::try_from(x.as_slice()))'
+                             '.transpose()?` or the netplay closure with `MeleeString::try_from(<x>.as_slice())?` for name and code): %s' % (where, s[:400]))
+    if tv(de_toks).count('MeleeString') != 1 + len(calls) or tv(body).count('MeleeString') != len(calls):
+        raise TranslateError('%s: MeleeString is mentioned outside the recognised call sites of fn player' % DE_RS)
+    if 'MeleeString' not in imported_from(DE_RS, ['shift_jis']) and find_seq(de_toks, ['shift_jis', '::', 'MeleeString']) < 0:
+        raise TranslateError('%s: MeleeString is not imported from game::shift_jis' % DE_RS)
+    # the fields reach the Player literal by shorthand
+    last = sts[-1]
+    ml = re.fullmatch(r'Ok \( r#type \. map \( \| r#type \| Player \{ (.*) \} \) \)', last)
+    lit_fields = ml.group(1).split(' , ') if ml else []
+    for f in sorted(set(c[0].split('.')[0] for c in calls)):
+        if f not in lit_fields:
+            raise TranslateError('%s: `%s` is not passed on (by shorthand) in the final `Ok(r#type.map(|r#type| Player { .. }))`: %s' % (where, f, last[:300]))
+    D.append('')
+    D.append('(* %s fn player: every MeleeString::try_from(<x>.as_slice()), as (field, the byte-array parameter it decodes, how its error propagates):' % DE_RS)
+    D.append('   McMapTranspose: `let f = <param>.map(|x| MeleeString::try_from(x.as_slice())).transpose()?`;')
+    D.append('   McQuestionInZipMapTranspose: `MeleeString::try_from(<x>.as_slice())?` inside `<p1>.zip(<p2>).map(|(a, b)| { .. Result::Ok(Netplay { .. }) }).transpose()?` *)')
+    D.append('Inductive mc_prop := McMapTranspose | McQuestionInZipMapTranspose.')
+    D.append('Definition melee_string_calls : list (string * string * mc_prop) :=\n  [%s].' % '; '.join('(%s, %s, %s)' % (coq_str(a), coq_str(b), c) for a, b, c in calls))
+    D.append('(* the order of the `let ucf` / `let name_tag` / `let netplay` statements (which error wins) *)')
+    D.append('Definition player_optional_order : list string := [%s].' % '; '.join(coq_str(x) for x in order))
+
+    L = []
+    L.append('(* GENERATED by tools/rust2coq.py from %s (impl TryFrom<&[u8]> for MeleeString, MeleeString::to_normalized) and' % SJ_RS)
+    L.append('   %s (the MeleeString::try_from call sites of fn player) -- do not edit. *)' % DE_RS)
+    L.append('From Coq Require Import NArith List String.')
+    L.append('Import ListNotations.')
+    L.append('Local Open Scope string_scope.')
+    L.append('')
+    L.extend(D)
+    return '\n'.join(L) + '\n'
+
+
+# ------------------------------------------------------------------------------------------------
+# (r) hashing front end: HashingReader::{new, into_digest}, impl Read / impl Seek for HashingReader, format_hash (src/io/mod.rs)
+#     and the lines of fn read (src/io/slippi/de.rs) that derive compute_hash / skip_frames from `opts`, wrap the reader,
+#     choose between copy and seek, and take the digest -> Gen/HashingSrc.v
+
+def gen_hashing():
+    toks = tokenize(read(IO_RS), IO_RS)
+    D = []
+    if find_seq(toks, ['use', 'xxhash_rust', '::', 'xxh3', '::', 'Xxh3', ';']) < 0:
+        raise TranslateError('%s: `use xxhash_rust::xxh3::Xxh3;` not found' % IO_RS)
+    i = find_seq(toks, ['struct', 'HashingReader'])
+    j = i
+    while i >= 0 and tv(toks[j:j + 1]) != ['{']:
+        j += 1
+    if i < 0 or sj(toks[i:match_close(toks, j) + 1]) != 'struct HashingReader < R : Read > { reader : R , hasher : Option < Box < Xxh3 > > }':
+        raise TranslateError('%s: not `struct HashingReader<R: Read> { reader: R, hasher: Option<Box<Xxh3>> }`' % IO_RS)
+
+    def hfn(header, fn, want_names, want_params, want_ret):
+        params, ret, body, names, blk = other_impl_fn(IO_RS, header, fn)
+        where = '%s impl %s fn %s' % (IO_RS, header.replace(' ', ''), fn)
+        if names != want_names:
+            raise TranslateError('%s: the impl contains %s, expected %s' % (where, names, want_names))
+        if sjp(params) != want_params or sj(ret) != want_ret:
+            raise TranslateError('%s: unexpected signature (%s) %s' % (where, sjp(params), sj(ret)))
+        return where, body
+
+    H_INH = '< R : Read > HashingReader < R >'
+    # ---- new
+    where, body = hfn(H_INH, 'new', ['new', 'into_digest'], 'reader : R , hash : bool', '-> Self')
+    if sj(body) != 'Self { reader , hasher : hash . then ( || Box :: new ( Xxh3 :: new ( ) ) ) }':
+        raise TranslateError('%s: the body is not `Self { reader, hasher: hash.then(|| Box::new(Xxh3::new())) }`: %s' % (where, sj(body)[:300]))
+    D.append('(* HashingReader::new(reader, hash): Self { reader, hasher: hash.then(|| Box::new(Xxh3::new())) }:')
+    D.append('   HnThenFresh = a fresh (unseeded, empty) hasher iff `hash`, otherwise none *)')
+    D.append('Inductive hr_new := HnThenFresh.')
+    D.append('Definition hr_new_hasher : hr_new := HnThenFresh.')
+    # ---- into_digest
+    where, body = hfn(H_INH, 'into_digest', ['new', 'into_digest'], 'self', '-> Option < String >')
+    md = re.fullmatch(r'self \. hasher \. as_deref \( \) \. map \( (\w+) \)', sj(body))
+    if not md:
+        raise TranslateError('%s: the body is not `self.hasher.as_deref().map(<fn>)`: %s' % (where, sj(body)[:300]))
+    D.append('(* HashingReader::into_digest(self): self.hasher.as_deref().map(%s): a digest iff a hasher is (still) there *)' % md.group(1))
+    D.append('Definition hr_digest_format_fn : string := %s.' % coq_str(md.group(1)))
+    # ---- read
+    where, body = hfn('< R : Read > Read for HashingReader < R >', 'read', ['read'], '& mut self , buf : & mut [ u8 ]', '-> std :: io :: Result < usize >')
+    m = strict_match([sj(x) for x in fw_stmts(body, where)], [
+        ('`let n = self.reader.read(buf)?`', r'let n = self \. reader \. read \( buf \) \?'),
+        ('`self.hasher.as_mut().map(|h| h.update(&buf[..n]))`', r'self \. hasher \. as_mut \( \) \. map \( \| h \| h \. update \( & buf \[ (?:(\d+) )?\.\. n \] \) \)'),
+        ('`Ok(n)`', r'Ok \( n \)'),
+    ], where)
+    D.append('(* impl Read: let n = self.reader.read(buf)?; self.hasher.as_mut().map(|h| h.update(&buf[%s..n])); Ok(n):' % (m[1].group(1) or ''))
+    D.append('   the statements in order; the lower bound of the slice fed to the hasher (its upper bound is n, the count the inner read returned) *)')
+    D.append('Inductive hr_read_step := HrInnerReadQuestion | HrUpdateUptoN (from : nat) | HrReturnN.')
+    D.append('Definition hr_read_steps : list hr_read_step := [HrInnerReadQuestion; HrUpdateUptoN %d; HrReturnN].' % int(m[1].group(1) or 0))
+    # ---- seek
+    where, body = hfn('< R : Read + Seek > Seek for HashingReader < R >', 'seek', ['seek'], '& mut self , pos : SeekFrom', '-> std :: io :: Result < u64 >')
+    strict_match([sj(x) for x in fw_stmts(body, where)], [
+        ('`let n = self.reader.seek(pos)?`', r'let n = self \. reader \. seek \( pos \) \?'),
+        ('`self.hasher = None`', r'self \. hasher = None'),
+        ('`Ok(n)`', r'Ok \( n \)'),
+    ], where)
+    D.append('(* impl Seek: let n = self.reader.seek(pos)?; self.hasher = None; Ok(n) *)')
+    D.append('Definition hr_seek_clears_hasher : bool := true.')
+    # ---- format_hash
+    where = '%s fn format_hash' % IO_RS
+    params, ret, body = find_fn(IO_RS, None, 'format_hash')
+    if md.group(1) != 'format_hash' or sjp(params) != 'hasher : & Xxh3' or sj(ret) != '-> String':
+        raise TranslateError('%s: unexpected signature (%s) %s, or into_digest maps %s' % (where, sjp(params), sj(ret), md.group(1)))
+    v = tv(body)
+    args = [a for a in af_split(body[3:-1], where) if a] if v[:3] == ['format', '!', '('] and match_close(body, 2) == len(body) - 1 else []
+    mf = re.fullmatch(r'&? ?hasher \. (\w+) \( \)', sj(args[1])) if len(args) == 2 else None
+    if not mf or len(args[0]) != 1:
+        raise TranslateError('%s: the body is not `format!("<format>", &hasher.<digest method>())`: %s' % (where, sj(body)[:300]))
+    lit = plain_str_lit(args[0][0], where)
+    ml = re.fullmatch(r'([^{}]*)\{:(0?)(\d*)([xX])\}', lit)
+    if not ml:
+        raise TranslateError('%s: the format string "%s" is not `<prefix>{:0<width>x}`' % (where, lit))
+    D.append('(* format_hash(hasher): format!("%s", &hasher.%s()) *)' % (lit, mf.group(1)))
+    D.append('Definition hash_prefix : list N := [%s]%%N.' % '; '.join(str(ord(ch)) for ch in ml.group(1)))
+    D.append('Definition hash_hex_width : nat := %d.' % int(ml.group(3) or 0))
+    D.append('Definition hash_hex_zero_padded : bool := %s.' % ('true' if ml.group(2) else 'false'))
+    D.append('Definition hash_hex_uppercase : bool := %s.' % ('true' if ml.group(4) == 'X' else 'false'))
+    D.append('Definition hash_digest_method : string := %s.' % coq_str(mf.group(1)))
+
+    # ---- fn read of de.rs
+    where = '%s fn read' % DE_RS
+    de_toks = tokenize(read(DE_RS), DE_RS)
+    decl = dict(parse_struct_decl(de_toks, 'Opts', DE_RS))
+    params, ret, body = find_fn(DE_RS, None, 'read')
+    if sjp(params) != 'r : R , opts : Option < & Opts >':
+        raise TranslateError('%s: unexpected parameters: %s' % (where, sjp(params)))
+    raw = fw_stmts(body, where)
+    txt = [sj(x) for x in raw]
+    MAP_OR = r'opts \. map_or \( (true|false) , \| o \| o \. (\w+) \)'
+    lines = {}
+    for k, s in enumerate(txt):
+        if re.fullmatch(LOG_MACRO, s):
+            continue
+        toks_s = s.split(' ')
+        mm = re.fullmatch(r'let (\w+) = %s' % MAP_OR, s)
+        if mm:
+            if 'hash' in lines or mm.group(1) != 'hash':
+                raise TranslateError('%s: unexpected `let %s = opts.map_or(..)`' % (where, mm.group(1)))
+            lines['hash'] = (k, mm.group(2), mm.group(3))
+            continue
+        if s == 'let mut r = HashingReader :: new ( r , hash )':
+            if 'wrap' in lines or 'hash' not in lines:
+                raise TranslateError('%s: the reader is wrapped twice, or before `hash` is computed' % where)
+            lines['wrap'] = k
+            continue
+        mm = re.match(r'if %s \{' % MAP_OR, s)
+        if mm:
+            if 'skip' in lines:
+                raise TranslateError('%s: two blocks conditional on an option' % where)
+            lines['skip'] = (k, mm.group(1), mm.group(2))
+            continue
+        if s == 'state . game . hash = r . into_digest ( )':
+            if 'digest' in lines:
+                raise TranslateError('%s: the digest is taken twice' % where)
+            lines['digest'] = k
+            continue
+        if any(x in toks_s for x in ('HashingReader', 'into_digest', 'map_or', 'compute_hash', 'skip_frames')) or 'hash =' in s or 'opts . ' in s:
+            raise TranslateError('%s: unrecognised statement that concerns the options or the hashing reader: %s' % (where, s[:300]))
+    for need in ('hash', 'wrap', 'skip', 'digest'):
+        if need not in lines:
+            raise TranslateError('%s: the `%s` line (let hash = opts.map_or(..) / HashingReader::new(r, hash) / if opts.map_or(..) {..} / '
+                                 'state.game.hash = r.into_digest()) was not found at the top level' % (where, need))
+    first = min(k for k, s in enumerate(txt) if not re.fullmatch(LOG_MACRO, s))
+    if lines['hash'][0] != first:
+        raise TranslateError('%s: `let hash = ..` is not the first statement: %s' % (where, txt[first][:200]))
+    if not (lines['hash'][0] < lines['wrap'] < lines['skip'][0] < lines['digest']) or lines['wrap'] != lines['hash'][0] + 1:
+        raise TranslateError('%s: the hashing lines are not in the order hash, wrap, skip block, digest' % where)
+    if not re.fullmatch(r'Ok \( Game :: from \( state \. game \) \)', txt[-1]) or lines['digest'] != len(txt) - 2:
+        raise TranslateError('%s: the digest is not taken immediately before the final `Ok(Game::from(state.game))`' % where)
+    for k in range(lines['wrap'] + 1, lines['digest']):
+        # between wrapping and taking the digest, every use of the reader goes through `r` (the HashingReader): nothing may re-bind it
+        if re.match(r'let (?:mut )?r\b', txt[k]):
+            raise TranslateError('%s: `r` is re-bound after it was wrapped: %s' % (where, txt[k][:200]))
+    for fld in (lines['hash'][2], lines['skip'][2]):
+        if decl.get(fld) != 'bool':
+            raise TranslateError('%s: Opts.%s is not a bool field' % (DE_RS, fld))
+    # the skip block: copy when hashing, seek otherwise
+    blk = fw_if_block(raw[lines['skip'][0]], where + ' (skip_frames block)')
+    inner = [sj(x) for x in fw_stmts(blk[1], where)]
+    COPY = r'io :: copy \( & mut r \. by_ref \( \) \. take \( skip as u64 \) , & mut io :: sink \( \) \) \? ;'
+    SEEK = r'r \. seek \( SeekFrom :: Current \( skip \. try_into \( \) \. map_err \( invalid_data \) \? \) \) \? ;'
+    alts = [s for s in inner if s.startswith('if hash') or 'seek' in s.split(' ') or 'copy' in s.split(' ')]
+    ms = re.fullmatch(r'if hash \{ (.*) \} else \{ (.*) \}', alts[0]) if len(alts) == 1 else None
+    kind = lambda t: 'HsCopyTake' if re.fullmatch(COPY, t) else 'HsSeekCurrent' if re.fullmatch(SEEK, t) else None
+    if not ms or kind(ms.group(1)) is None or kind(ms.group(2)) is None:
+        raise TranslateError('%s (skip_frames block): expected exactly one `if hash { <copy or seek> } else { <copy or seek> }`: %s' % (where, ' ; '.join(alts)[:400]))
+    D.append('')
+    D.append('(* %s fn read(r, opts: Option<&Opts>):' % DE_RS)
+    D.append('   let hash = opts.map_or(%s, |o| o.%s); let mut r = HashingReader::new(r, hash); ..' % (lines['hash'][1], lines['hash'][2]))
+    D.append('   if opts.map_or(%s, |o| o.%s) { .. if hash { %s } else { %s } .. } ..' % (lines['skip'][1], lines['skip'][2], kind(ms.group(1)), kind(ms.group(2))))
+    D.append('   state.game.hash = r.into_digest(); Ok(Game::from(state.game)) *)')
+    D.append('Definition opts_hash_field : string := %s.' % coq_str(lines['hash'][2]))
+    D.append('Definition opts_hash_default : bool := %s.       (* the value when opts is None *)' % lines['hash'][1])
+    D.append('Definition opts_skip_field : string := %s.' % coq_str(lines['skip'][2]))
+    D.append('Definition opts_skip_default : bool := %s.       (* the value when opts is None *)' % lines['skip'][1])
+    D.append('(* HsCopyTake: io::copy(&mut r.by_ref().take(skip as u64), &mut io::sink())?  (reads through the hashing reader);')
+    D.append('   HsSeekCurrent: r.seek(SeekFrom::Current(skip..))?  -- keyed by the value of `hash` *)')
+    D.append('Inductive hs_skip := HsCopyTake | HsSeekCurrent.')
+    D.append('Definition hashing_skip_steps : list (bool * hs_skip) := [(true, %s); (false, %s)].' % (kind(ms.group(1)), kind(ms.group(2))))
+    D.append('Definition read_wraps_reader_first : bool := true.     (* HashingReader::new(r, hash) precedes every read of the input *)')
+    D.append('Definition read_digest_taken_last : bool := true.      (* into_digest() is the last statement before the result *)')
+
+    L = []
+    L.append('(* GENERATED by tools/rust2coq.py from %s (struct HashingReader, its impls, fn format_hash) and' % IO_RS)
+    L.append('   %s (the option / hashing lines of fn read) -- do not edit. *)' % DE_RS)
+    L.append('From Coq Require Import NArith List String.')
+    L.append('Import ListNotations.')
+    L.append('Local Open Scope string_scope.')
+    L.append('')
+    L.extend(D)
+    return '\n'.join(L) + '\n'
+
+
+# ------------------------------------------------------------------------------------------------
+# (s) port-occupancy front end: fn port_occupancy (src/game/mod.rs) -> Gen/PortOccupancySrc.v
+
+GAME_RS = 'src/game/mod.rs'
+
+
+def gen_port_occupancy():
+    where = '%s fn port_occupancy' % GAME_RS
+    toks = tokenize(read(GAME_RS), GAME_RS)
+    if parse_struct_decl(tokenize(read(FRAME_MOD_RS), FRAME_MOD_RS), 'PortOccupancy', FRAME_MOD_RS) != [('port', 'Port'), ('follower', 'bool')]:
+        raise TranslateError('%s: struct PortOccupancy is not { port: Port, follower: bool }' % FRAME_MOD_RS)
+    pdecl = dict(parse_struct_decl(toks, 'Player', GAME_RS))
+    sdecl = dict(parse_struct_decl(toks, 'Start', GAME_RS))
+    ct, ce = find_const(GAME_RS, 'ICE_CLIMBERS')
+    if ct != 'u8':
+        raise TranslateError('%s: ICE_CLIMBERS is not a u8: %s' % (GAME_RS, ct))
+    params, ret, body = find_fn(GAME_RS, None, 'port_occupancy')
+    if sjp(params) != 'start : & Start' or sj(ret) != '-> Vec < PortOccupancy >':
+        raise TranslateError('%s: unexpected signature (%s) %s' % (where, sjp(params), sj(ret)))
+    m = re.fullmatch(r'start \. (\w+) \. iter \( \) \. map \( \| (\w+) \| PortOccupancy \{ (.*) \} \) \. collect \( \)', sj(body))
+    if not m:
+        raise TranslateError('%s: the body is not `start.<field>.iter().map(|p| PortOccupancy { .. }).collect()`: %s' % (where, sj(body)[:300]))
+    src, p = m.group(1), m.group(2)
+    if sdecl.get(src) != 'Vec < Player >':
+        raise TranslateError('%s: Start.%s is not a Vec<Player>: %s' % (where, src, sdecl.get(src)))
+    inits = {}
+    for f in m.group(3).split(' , '):
+        mf = re.fullmatch(r'(\w+) : (.*)', f)
+        if not mf or mf.group(1) in inits:
+            raise TranslateError('%s: unrecognised field initialiser: %s' % (where, f[:200]))
+        inits[mf.group(1)] = mf.group(2)
+    if sorted(inits) != ['follower', 'port']:
+        raise TranslateError('%s: the literal does not initialise exactly port and follower: %s' % (where, sorted(inits)))
+    mp = re.fullmatch(r'%s \. (\w+)' % p, inits['port'])
+    if not mp or pdecl.get(mp.group(1)) != 'Port':
+        raise TranslateError('%s: `port` is not initialised from a Port field of the player: %s' % (where, inits['port'][:200]))
+    used = sorted(set(re.findall(r'\b%s \. (\w+)' % p, inits['follower'])))
+    if len(used) != 1 or pdecl.get(used[0]) != 'u8' or re.search(r'\b%s\b(?! \. %s\b)' % (p, used[0]), inits['follower']):
+        raise TranslateError('%s: `follower` is not an expression over exactly one u8 field of the player: %s' % (where, inits['follower'][:200]))
+    expr = inits['follower'].replace('%s . %s' % (p, used[0]), 'x_')
+    D = []
+    D.append('(* %s: start.%s.iter().map(|%s| PortOccupancy { port: %s, follower: %s }).collect() *)' % (where, src, p, inits['port'], inits['follower']))
+    D.append('Definition port_occupancy_source : string := %s.            (* the list iterated, in order *)' % coq_str(src))
+    D.append('Definition port_occupancy_port_field : string := %s.           (* port: p.<field> *)' % coq_str(mp.group(1)))
+    D.append('Definition port_occupancy_follower_field : string := %s.  (* the one player field the follower flag is computed from *)' % coq_str(used[0]))
+    D.append(expr_to_gallina(expr, [], {'x_': 'x', 'ICE_CLIMBERS': 'ICE_CLIMBERS'}, where, 'port_occupancy_follower', ['x'], 'bool'))
+    L = []
+    L.append('(* GENERATED by tools/rust2coq.py from %s (fn port_occupancy) -- do not edit.' % GAME_RS)
+    L.append('   The follower expression is translated by the expression front end (every integer an N, comparisons boolean). *)')
+    L.append('From Coq Require Import NArith Bool List String.')
+    L.append('From Peppi Require Import Gen.Funs.')
+    L.append('Import ListNotations.')
+    L.append('Local Open Scope string_scope.')
+    L.append('')
+    L.extend(D)
+    return '\n'.join(L) + '\n'
+
+
 def write_if_changed(path, content):
     os.makedirs(os.path.dirname(path), exist_ok=True)
     try:
@@ -4805,7 +5559,10 @@ def main():
                       ('FrameWrite.v', gen_frame_write), ('Splitter.v', gen_splitter),
                       ('ReadTail.v', gen_read_tail), ('UbjsonMarkers.v', gen_ubjson_markers),
                       ('WriterRaw.v', gen_writer_raw), ('WriterSteps.v', gen_writer_steps), ('ParseEvent.v', gen_parse_event),
-                      ('ArrowFrame.v', gen_arrow_frame), ('FrameTranspose.v', gen_frame_transpose), ('ReadPrologue.v', gen_read_prologue), ('SlppHelpers.v', gen_slpp_helpers)):
+                      ('ArrowFrame.v', gen_arrow_frame), ('FrameTranspose.v', gen_frame_transpose), ('ReadPrologue.v', gen_read_prologue), ('SlppHelpers.v', gen_slpp_helpers),
+                      ('RollbacksSrc.v', gen_rollbacks), ('VersionTextSrc.v', gen_version_text),
+                      ('MeleeStringSrc.v', gen_melee_string), ('HashingSrc.v', gen_hashing),
+                      ('PortOccupancySrc.v', gen_port_occupancy)):
         try:
             content = gen()
             if write_if_changed(os.path.join(OUT, name), content):
